@@ -990,6 +990,28 @@ pub fn group_labels(case: &GroupCase, out: &GroupOut) -> Vec<&'static str> {
     if case.keyed {
         l.push("keyed");
     }
+    {
+        fn never(c: &ChildSpec) -> bool {
+            match c {
+                ChildSpec::Leaf(l) => l.script.contains(&crate::world::Step::Never),
+                ChildSpec::Inner(i) => i.children.iter().any(never),
+            }
+        }
+        let mut members: Vec<&ChildSpec> = Vec::new();
+        if let Init::FromIter(v) = &case.init {
+            members.extend(v.iter());
+        }
+        for o in &case.ops {
+            match o {
+                GOp::Insert(c) => members.push(c),
+                GOp::Extend(v) => members.extend(v.iter()),
+                _ => {}
+            }
+        }
+        if members.into_iter().any(never) {
+            l.push("never_child");
+        }
+    }
     match case.init {
         Init::New => l.push("init_new"),
         Init::WithCap(_) => l.push("init_with_capacity"),
